@@ -110,7 +110,8 @@ func markAlloc(super *super.FsSuper, n common.Bnum, m common.Bnum) {
 		super.NBlockBitmap*common.NBITBLOCK)
 	if n >= common.Bnum(common.NBITBLOCK) ||
 		m >= common.Bnum(common.NBITBLOCK*super.NBlockBitmap) ||
-		m < n {
+		m <= n {
+		// (m == n: no data block at all, not even for the root directory)
 		panic("markAlloc: configuration makes no sense")
 	}
 	blk := make(disk.Block, disk.BlockSize)
